@@ -43,6 +43,19 @@ def lazy_histories():
     return out
 
 
+def capacity_histories():
+    """A list that has a capacity (RTP: at most 15 CSRC identifiers): filled to the limit, one more entry offered (it must be refused
+    and leave no trace), an entry removed, another one added, with serialisations in between."""
+    A = lambda c: {"op": "add", "code": c, "size": 0, "spoof": -1}
+    R = lambda c: {"op": "remove", "code": c, "size": 0, "spoof": -1}
+    out = []
+    for first in (0, 1):
+        fill = [A((first + i) % 2) for i in range(15)]
+        out.append({"kind": "rtp", "ops": fill + [A(0), A(1), R(first), A(1 - first), A(first)]})
+        out.append({"kind": "rtp", "ops": fill[:14] + [R(first), A(1), A(1), A(0), R(1), R(1), A(0)]})
+    return out
+
+
 def run(prop, tier, extra=None):
     t0 = time.time()
     quick = tier == "quick"
@@ -74,7 +87,7 @@ def run(prop, tier, extra=None):
         for s in hist:
             uh[vlib.canon_hash(s)] = s
         hist = sorted(uh.values(), key=vlib.canon_hash)
-        hist += lazy_histories()
+        hist += lazy_histories() + capacity_histories()
         p2 = vlib.Pipeline(prop, "containers", "wire/ContainerTrace", "ContainerTrace_%s.cfg" % prop)
         for i in range(0, len(hist), 40000):
             p2.push(hist[i:i + 40000], "c%d" % (i // 40000), timeout=3000)
